@@ -8,7 +8,7 @@
    as full statements and are decided per case by the verified-model correspondence
    plus brute-force references in the check (C05 evidence: "partial"). *)
 From Coq Require Import ZArith List Arith.
-From VL Require Import Prelude.PyDict Model.GetNBest Model.Condorcet Proofs.Condorcet_proofs Proofs.CopelandMono_proofs Proofs.SmithCopeland_proofs.
+From VL Require Import Prelude.PyDict Model.GetNBest Model.Condorcet Proofs.Condorcet_proofs Proofs.CopelandMono_proofs Proofs.SmithCopeland_proofs Proofs.Minimax_proofs.
 Import ListNotations.
 Open Scope Z_scope.
 
@@ -21,6 +21,18 @@ Proof. intros v so c Hnd Hnn. exact (copeland_elects_cw v Hnd Hnn so c). Qed.
 Theorem C05_copeland_score : forall (v : pvotes) x,
   dget_or (copeland_scores (pairwise_wins v false)) x 0 = nwins v x - nlosses v x.
 Proof. exact copeland_scores_get. Qed.
+
+(* minimax by winning votes and by margins elects the Condorcet winner alone (pairwise opposition does not
+   satisfy the Condorcet criterion in general and is not claimed), and with as many seats as candidates no candidate
+   is dropped from the minimax ranking (all three scorers) *)
+Theorem C05_cw_minimax : forall (v : pvotes) s c,
+  NoDup (map fst v) -> (forall p n, In (p, n) v -> 0 <= n) -> (2 <= length (candidates v))%nat ->
+  s <> PairwiseOpposition -> is_cw v c -> minimax s v 1 = [Cand c].
+Proof. intros v s c Hnd Hnn H2. exact (minimax_elects_cw v Hnn H2 s c). Qed.
+
+Theorem C05_minimax_nobody_dropped : forall (v : pvotes) s x,
+  (2 <= length (candidates v))%nat -> In x (candidates v) -> In (Cand x) (minimax s v (length (candidates v))).
+Proof. intros v s x H2. exact (minimax_nobody_dropped v H2 s x). Qed.
 
 (* Smith-efficiency of Copeland: a sole winner by Copeland scores lies in the Smith set (the set SmithSet computes,
    proved in C06 to be the smallest dominating set) *)
@@ -58,3 +70,5 @@ Proof. vm_compute. reflexivity. Qed.
 Print Assumptions C05_cw_copeland.
 Print Assumptions C05_copeland_score.
 Print Assumptions C05_smith_copeland.
+Print Assumptions C05_cw_minimax.
+Print Assumptions C05_minimax_nobody_dropped.
